@@ -199,6 +199,9 @@ func openFlag(mode string) int {
 	return os.O_RDONLY
 }
 
+// a call still blocked after this long is recorded as blocked (FIFO opened without O_NONBLOCK ...)
+const watchdog = 8 * time.Second
+
 type foWorker struct {
 	probeDir, scratch string
 	e                 *env
@@ -228,7 +231,7 @@ func (w *foWorker) call(f func()) (ms int, blocked bool) {
 	go func() { f(); close(done) }()
 	select {
 	case <-done:
-	case <-time.After(5 * time.Second):
+	case <-time.After(watchdog):
 		blocked = true
 		w.e.destroy()
 		select {
@@ -365,8 +368,20 @@ func (w *foWorker) run(c foCase) foOut {
 		}
 		ev.Post = e.observeFS()
 		out.Ev = append(out.Ev, ev)
-		perr := e.Ping()
-		pe := foEv{E: "ping", Ok: perr == nil, Items: []foItem{}, Links: []foLink{}, Res: []foRes{}, Errs: []string{}}
+		// Ping carries a 3 s deadline.  To keep a slow machine from failing it, first make one
+		// round trip without a deadline (an empty Symlink request is answered by an error reply):
+		// when it has returned the init is running and idle.  If the previous operation broke or
+		// desynchronised the protocol, this call or the Ping after it fails all the same.
+		_, syncBlocked := w.call(func() { e.Symlink(nil) })
+		pe := foEv{E: "ping", Items: []foItem{}, Links: []foLink{}, Res: []foRes{}, Errs: []string{}}
+		var perr error
+		if syncBlocked {
+			pe.Blocked = true
+			perr = fmt.Errorf("no answer to an empty request within the watchdog time")
+		} else {
+			perr = e.Ping()
+		}
+		pe.Ok = perr == nil
 		if perr != nil {
 			pe.Err = clip(perr.Error()+" | "+e.stderr.String(), 300)
 		}
